@@ -108,6 +108,16 @@ def _alpha_rotate(base):
     return [("change",), ("ncid", 1, 0), ("ncid", 8, 0), ("ncid", 9, 0), ("ack",)]
 
 
+def split_alpha(alpha):
+    """'small@4' = alphabet 'small' against a peer that advertises active_connection_id_limit 4."""
+    name, _, lim = alpha.partition("@")
+    return name, int(lim) if lim else LIMIT_PEER
+
+
+def moves_of(alpha, base):
+    return ALPHABETS[split_alpha(alpha)[0]](base)
+
+
 ALPHABETS = {"full": _alpha_full, "medium": _alpha_medium, "small": _alpha_small, "rotate": _alpha_rotate}
 
 
@@ -126,6 +136,7 @@ class World:
         self.role = role
         self.base = base
         self.alpha = alpha
+        self.peer_limit = split_alpha(alpha)[1]
         self.viol = []  # (sig, what)
         self.exc = None
         self.issued = {}  # peer seq -> cid, as delivered to E
@@ -147,11 +158,16 @@ class World:
         self.boot_failed = False  # a monitor fired on the handshake traffic itself
         self._boot()
 
+    def _peer_cfg(self):
+        if self.peer_limit == LIMIT_PEER:
+            return {}
+        return {("c_cid_limit" if self.role == "server" else "s_cid_limit"): self.peer_limit}
+
     # ------------------------------------------------------------- bootstrap
     def _boot(self):
         role = self.role
         if self.base == "full":
-            bot = peerbot.PeerBot(role, cut="connected")
+            bot = peerbot.PeerBot(role, cfg=self._peer_cfg(), cut="connected")
             self.bot = bot
             self.issued[0] = bot.p_scid()
             for r in bot.P.sent_packets:
@@ -162,7 +178,7 @@ class World:
             self._scan_boot()
         else:
             if role == "server":
-                bot = peerbot.PeerBot(role, cut=("steps", 2))
+                bot = peerbot.PeerBot(role, cfg=self._peer_cfg(), cut=("steps", 2))
                 self.bot = bot
                 d = bot.pending[0]
                 pk, _ = refquic.split_datagram(d.data, 8)
@@ -170,7 +186,7 @@ class World:
                 self.issued[0] = bot.p_scid()
                 self._do(lambda: bot.feed(d.data[:off], pad_to=1200), boot=True)
             else:
-                bot = peerbot.PeerBot(role, cut=("steps", 3))
+                bot = peerbot.PeerBot(role, cfg=self._peer_cfg(), cut=("steps", 3))
                 self.bot = bot
                 self.issued[0] = bot.p_scid()
                 self._scan_boot()
@@ -181,6 +197,9 @@ class World:
             bot.pending = []
         if not bot.E.hs_done:
             raise core.HarnessError("bootstrap: handshake not complete on E (%s/%s)" % (role, self.base))
+        if bot.E.conn._remote_active_connection_id_limit != self.peer_limit:
+            raise core.HarnessError("bootstrap: E learnt active_connection_id_limit %r from the peer, harness wanted %d"
+                                    % (bot.E.conn._remote_active_connection_id_limit, self.peer_limit))
         self._limits()  # what E issued during the handshake already counts
         if self.viol:
             self.boot_failed = True
@@ -330,9 +349,9 @@ class World:
 
     def _limits(self):
         active = [s for s in self.e_issued() if s not in self.peer_retired]
-        if len(active) > LIMIT_PEER:
+        if len(active) > self.peer_limit:
             self._v("host_cid_limit", "E has %d issued, un-retired connection IDs %s; the peer "
-                    "allows %d" % (len(active), sorted(active), LIMIT_PEER))
+                    "allows %d" % (len(active), sorted(active), self.peer_limit), peer_limit=self.peer_limit)
 
     def e_issued(self):
         return set(self.new_pns) | {0}
@@ -356,7 +375,7 @@ class World:
         """Menu of moves in the current state (simplest first)."""
         if self.is_closed():
             return []
-        return list(ALPHABETS[self.alpha](self.base))
+        return list(moves_of(self.alpha, self.base))
 
     def apply(self, mv):
         """Apply one move; returns False if the move is not enabled here (no-op)."""
@@ -508,10 +527,10 @@ class World:
                             cls=cls, below_rpt=s < self.R)
         # ---- replacement of retired host CIDs, delivered
         active = sorted(s for s in self.e_issued() if s not in self.peer_retired)
-        if self.peer_retired and len(active) < LIMIT_PEER:
+        if self.peer_retired and len(active) < min(self.peer_limit, LIMIT_PEER):
             self._v("no_replacement",
                     "the peer retired E's connection IDs %s; E has only %d active IDs %s afterwards "
-                    "(peer limit %d)" % (sorted(self.peer_retired), len(active), active, LIMIT_PEER))
+                    "(peer limit %d)" % (sorted(self.peer_retired), len(active), active, self.peer_limit))
         for s in active:
             if s == 0:
                 continue
@@ -614,7 +633,7 @@ def replay_history(role, base, hist, alpha="full"):
 def expand_node(arg):
     """arg = (role, base, hist).  One fresh endpoint per transition."""
     role, base, alpha, hist = arg
-    menu = ALPHABETS[alpha](base)
+    menu = moves_of(alpha, base)
     out = []
     for mv in menu:
         w = replay_history(role, base, hist, alpha)
@@ -899,6 +918,9 @@ PLAN = {
         ("server", "full", "medium", 2), ("client", "full", "medium", 3),
         ("server", "fresh", "small", 4), ("client", "fresh", "small", 3),
         ("server", "full", "small", 3), ("client", "full", "small", 3),
+        # a peer that advertises a smaller active_connection_id_limit than aioquic's own 8
+        ("server", "fresh", "small@2", 3), ("client", "fresh", "small@3", 2),
+        ("client", "full", "small@4", 3), ("server", "full", "small@7", 2),
         ("server", "fresh", "rotate", 10), ("client", "fresh", "rotate", 10),
         ("server", "full", "rotate", 6), ("client", "full", "rotate", 6),
     ],
@@ -909,6 +931,9 @@ PLAN = {
         ("server", "full", "medium", 4), ("client", "full", "medium", 4),
         ("server", "fresh", "small", 6), ("client", "fresh", "small", 5),
         ("server", "full", "small", 5), ("client", "full", "small", 5),
+        ("server", "fresh", "medium@2", 3), ("client", "fresh", "medium@2", 3),
+        ("server", "full", "medium@3", 3), ("client", "full", "medium@4", 3),
+        ("server", "full", "small@7", 4), ("client", "fresh", "small@7", 4),
         ("server", "fresh", "rotate", 14), ("client", "fresh", "rotate", 14),
         ("server", "full", "rotate", 10), ("client", "full", "rotate", 10),
     ],
@@ -947,7 +972,7 @@ def run(ctx):
             depth=st["depth_done"],
             closure=st["closure"],
             new_states_per_level=str(st["per_level"]),
-            alphabet=len(ALPHABETS[alpha](base)),
+            alphabet=len(moves_of(alpha, base)),
             outcomes=len(outc),
             wall_s=st["wall"],
         )
